@@ -356,8 +356,15 @@ class Interp(object):
     st_Nonlocal = st_Pass
 
     def st_Assert(self, s, st, fr):
-        # assert is not a guard (python -O); evaluate for events only
-        self.ev(s.test, st)
+        # assert is not a guard (python -O); evaluate for events only.  With `assert_raises` (value rows: what does
+        # a normal run return?) an assertion that is definitely false ends the path with AssertionError.
+        v = self.ev(s.test, st)
+        if getattr(self, "assert_raises", False):
+            r = self._after_ev(st)
+            if r[0] is None:
+                return r
+            if truth(v) is False:
+                return None, self.do_raise("AssertionError", st, s)
         return st, set()
 
     def st_Expr(self, s, st, fr):
@@ -1638,6 +1645,11 @@ class Interp(object):
                 kwargs[k.arg] = v
         if getattr(self, "_diverged", None) is not None:
             return UNK
+        if isinstance(n.func, ast.Attribute) and isinstance(n.func.value, ast.Name) and \
+                any(isinstance(x, ast.Call) for a in list(n.args) + [k.value for k in n.keywords] for x in ast.walk(a)):
+            # `lst.insert(0, g(x))`: inlining g may have copied the state's containers; the receiver of the bound
+            # method is the container the name refers to *now* (a bare name: re-evaluation has no effect)
+            f = self.ev(n.func, st)
         fname = norm(n.func)
         self.event("call", fname, n, args=(f, args, kwargs))
         st.must.add("call:" + fname.split(".")[-1])
